@@ -144,6 +144,8 @@ class EnumVal(Obj):
         return not self.__eq__(other)
 
     def __hash__(self):
+        if self.int_like:
+            return hash(self.attrs['value'])           # an IntEnum member is the key its number is
         return hash(self.label)
 
 
@@ -307,6 +309,24 @@ class Stream(Iter):
 
     def push(self, item):
         self.items.insert(self.pos, item)
+
+
+class ScriptedIter(Iter):
+    """An iterator value of the scenario (a token stream that the hooks script): items are asked from hooks.take one at a time."""
+    def __init__(self, value):
+        Iter.__init__(self, [])
+        self.value = value
+
+    def __repr__(self):
+        return 'ScriptedIter(%r)' % (self.value,)
+
+    def __deepcopy__(self, memo):
+        g = ScriptedIter(copy.deepcopy(self.value, memo))
+        memo[id(self)] = g
+        return g
+
+    def take(self):
+        raise AnalysisError('a scripted iterator is consumed by code that does not know it')
 
 
 class CountIter(Iter):
@@ -509,6 +529,11 @@ class Hooks:
     def iter_item(self, interp, loop, k, state):
         """Item for iteration k of `loop`; STOP to exhaust; None = fork both."""
         return None
+
+    def take(self, interp, value, state):
+        """Next item of an iterator value that the scenario scripts (reached through zip(), next(), a lazy wrapper): the item, STOP,
+        or NotImplemented when `value` is none of the scenario's iterators."""
+        return NotImplemented
 
     def decide(self, interp, test, state):
         """Force the outcome of a test (True/False) or None."""
@@ -802,11 +827,18 @@ class Interp:
                     if not is_concrete(idx):
                         idx = None
                 self.emit(s3, ('aug', txt, type(n.op).__name__, v if is_concrete(v) else _text(n.value), idx))
+                if isinstance(cur, EnumVal) and cur.int_like:
+                    cur = cur.attrs['value']
+                if isinstance(v, EnumVal) and v.int_like:
+                    v = v.attrs['value']             # a member of an IntEnum is its number in arithmetic
                 if is_concrete(cur) and is_concrete(v) and not isinstance(cur, (list, dict, set)):
                     try:
                         res = M._BINOPS[type(n.op)](cur, v)
                     except Exception:
                         res = TOP
+                        if self.heap:
+                            self.imprecise.append('%s %s= ... could not be computed on %s and %s (line %s)'
+                                                  % (txt, type(n.op).__name__, type(cur).__name__, type(v).__name__, n.lineno))
                 elif isinstance(cur, list) and isinstance(v, (list, tuple, Iter)) and not isinstance(v, CountIter) and isinstance(n.op, ast.Add):
                     if isinstance(v, (LazyGen, GenObj)):
                         v = self.lazy_drain(v, s3)
@@ -1684,7 +1716,11 @@ class Interp:
         return (v,)
 
     def materialize(self, v, s):
-        """The items of a heap object whose class defines __iter__ (interpreted on that object); v otherwise."""
+        """The items of a heap object whose class defines __iter__ (interpreted on that object); the members of an enum class; v otherwise."""
+        if isinstance(v, M.ClassInfo) and self.model is not None:
+            mem = self._enum_members(v, s)
+            if mem is not None:
+                return list(mem)
         if self.heap and isinstance(v, Obj) and isinstance(v.cls, M.ClassInfo) and self.model is not None \
            and self.inline_depth > 0 and len(self._inline_stack) < self.inline_depth and self.model.find_method(v.cls, '__iter__') is not None:
             key = '__recv@%d' % len(self._inline_stack)
@@ -2495,6 +2531,28 @@ class Interp:
                 kind = kind or 'plain'
         return kind
 
+    def _enum_members(self, cls, s):
+        """The members of an enum class of the analysed code in definition order ([EnumVal]); None when cls is no enum or a member's
+        value is not determined."""
+        if not isinstance(cls, M.ClassInfo) or self._enum_kind(cls) is None:
+            return None
+        out = []
+        for st in cls.node.body:
+            names = []
+            if isinstance(st, ast.Assign):
+                names = [t.id for t in st.targets if isinstance(t, ast.Name)]
+            elif isinstance(st, ast.AnnAssign) and isinstance(st.target, ast.Name) and st.value is not None:
+                names = [st.target.id]
+            for nm in names:
+                if nm.startswith('_'):
+                    continue
+                v = self.getattr(cls, nm, st, s)
+                if not isinstance(v, EnumVal):
+                    return None
+                if not any(v.attrs['value'] == o.attrs['value'] for o in out):      # (a repeated value is an alias, not a member)
+                    out.append(v)
+        return out
+
     def _dynamic_class_attr(self, cls, attr, s):
         """(value,) of a class attribute assigned by the interpreted code (Class.attr = v), looked up along the MRO; None otherwise."""
         if not self.heap or self.model is None or not any(k.startswith('__cls:') for k in s.env):
@@ -2572,6 +2630,10 @@ class Interp:
                 dyn = self._dynamic_class_attr(base, attr, s)
                 if dyn is not None:
                     return dyn[0]
+                if attr == '__members__' and ek is not None:
+                    mem = self._enum_members(base, s)
+                    if mem is not None:
+                        return {e_.attrs['name']: e_ for e_ in mem}
                 if attr in ('__name__', '__qualname__', '__module__') and attr not in base.assigns:
                     return {'__name__': base.name, '__qualname__': base.qualname, '__module__': base.module.name}[attr]
                 v = m.class_const(base, attr)
@@ -2673,6 +2735,15 @@ class Interp:
             return TOP
         if isinstance(base, Obj) and isinstance(base.attrs.get('__dict'), dict):
             base = base.attrs['__dict']          # an instance of a dict subclass without its own __getitem__
+        if isinstance(base, M.ClassInfo) and isinstance(idx, str) and self.model is not None and self._enum_kind(base) is not None:
+            v_ = self.getattr(base, idx, n, s) if idx in base.assigns else None
+            if isinstance(v_, EnumVal):
+                return v_                     # Colour['RED']
+            if v_ is None and self.precise_exc and self._enum_members(base, s) is not None:
+                s.env['__exc'] = 'KeyError'
+            return TOP
+        if isinstance(idx, EnumVal) and idx.int_like and isinstance(base, (list, tuple, str)):
+            idx = idx.attrs['value']             # a member of an IntEnum used as an index
         if isinstance(base, (list, tuple, str, dict)) and is_concrete(idx) and not isinstance(base, M._StringLetters):
             try:
                 return base[idx]
@@ -3473,6 +3544,14 @@ class Interp:
         """Next item of a lazy iterator (generator expression, takewhile, filter, map, ... over a stateful source):
         STOP, the item (_NONE_ITEM for None), or None when a condition is not determined."""
         n = gen.node
+        if gen.kind == 'zip':
+            out = []
+            for src in gen.source:           # one item from each source, in order; the first that is exhausted ends the zip
+                item = self._take(src, s)
+                if item is STOP or item is None:
+                    return item
+                out.append(None if item is _NONE_ITEM else item)
+            return tuple(out)
         if gen.kind != 'genexp':
             if gen.kind == 'takewhile' and gen.state:
                 return STOP
@@ -3675,6 +3754,11 @@ class Interp:
             return self.gen_next(it, s)
         if isinstance(it, LazyGen):
             return self.lazy_take(it, s)
+        if isinstance(it, ScriptedIter):
+            item = self.h.take(self, it.value, s)
+            if item is NotImplemented:
+                return None
+            return _NONE_ITEM if item is None else item
         item = it.take()
         return _NONE_ITEM if item is None else item
 
@@ -4320,6 +4404,14 @@ class Interp:
                 v = self.ev(k.value, s)
                 if k.arg is not None:
                     kwargs[k.arg] = v
+        if fname == 'zip' and 'zip' not in s.env and not kwargs and args and self.heap:
+            scripted = type(self.h).take is not Hooks.take
+            stateful = [isinstance(a, Iter) or (scripted and isinstance(a, Sym)) for a in args]
+            if any(stateful):
+                # zip over a stateful iterator (a token stream, a generator): items are taken on demand, one from each source in turn
+                srcs = [(a if isinstance(a, Iter) else ScriptedIter(a)) if st_ else self._as_iterator(a, s) for a, st_ in zip(args, stateful)]
+                if all(x is not None for x in srcs):
+                    return LazyGen(n, srcs, {}, self.scope, 'zip')
         if any(isinstance(a, (LazyGen, GenObj)) for a in args):
             if fname in ('next', 'any', 'all') and fname not in s.env and isinstance(args[0], (LazyGen, GenObj)):
                 gen = args[0]
@@ -4370,6 +4462,11 @@ class Interp:
                             a = TOP
                     conv.append(a)
                 args = conv
+        if fname == 'object' and 'object' not in s.env and not args and not kwargs and isinstance(n.func, ast.Name):
+            # a fresh marker object (nothing = object()): identical to itself only
+            k_ = self.__dict__.setdefault('_fresh_markers', [0])
+            k_[0] += 1
+            return Sym('sentinel@%d#%d' % (n.lineno, k_[0]), truthy=True, attrs={'distinct': True})
         self.ncalls = getattr(self, 'ncalls', 0) + 1
         r = self.h.call(self, n, fname, args, kwargs, s)
         self.emit(s, ('call', fname, _evargs(args, n.args), n.lineno))
@@ -4664,6 +4761,16 @@ class Interp:
                     s.env['__exc'] = type(e).__name__
                 return TOP
         # model classes -> instances
+        if isinstance(fval, M.ClassInfo) and self.model is not None and len(args) == 1 and not kwargs and self._enum_kind(fval) is not None:
+            mem = self._enum_members(fval, s)
+            if mem is not None and is_concrete(args[0]):
+                for e_ in mem:
+                    if e_ is args[0] or (not isinstance(args[0], Obj) and e_.attrs['value'] == args[0] and type(e_.attrs['value']) is type(args[0])):
+                        return e_                 # Colour('red'): the member with that value
+                if self.precise_exc:
+                    s.env['__exc'] = 'ValueError'
+                return TOP
+            return TOP
         if isinstance(fval, M.ClassInfo):
             if self.heap:
                 is_list = any(isinstance(k, M.External) and k.name in ('list', 'builtins.list') for k in self.model.mro(fval)) if self.model is not None else False
@@ -4743,6 +4850,13 @@ class Interp:
             return r
         if isinstance(n.func, ast.Name) and n.func.id == 'dict' and 'dict' not in s.env and not args and kwargs:
             return dict(kwargs)
+        if isinstance(n.func, ast.Name) and n.func.id in ('len', 'list', 'tuple', 'iter', 'reversed', 'sorted', 'enumerate') and n.func.id not in s.env \
+           and len(args) >= 1 and isinstance(args[0], M.ClassInfo) and self.model is not None:
+            mem = self._enum_members(args[0], s)
+            if mem is not None:
+                if n.func.id == 'len':
+                    return len(mem)
+                args = [list(mem)] + list(args[1:])          # list(Colour), enumerate(Colour), ...
         if isinstance(n.func, ast.Name) and n.func.id == 'len' and 'len' not in s.env and len(args) == 1 \
            and isinstance(args[0], (list, tuple, dict)) and not kwargs:
             return len(args[0])
@@ -4842,6 +4956,12 @@ class Interp:
                         v = {'list': list, 'dict': dict, 'set': set, 'tuple': tuple}[_text(kw['default_factory'])]()
                     elif 'default' in kw:
                         v = self._from_model(self.model.eval_const(owner, kw['default']))
+                    elif 'default_factory' in kw:
+                        fv_ = self.ev(kw['default_factory'], s)          # a lambda or a function of the analysed code
+                        r_ = self.apply_value(fv_, [], {}, s, n.lineno)
+                        if r_ is None:
+                            return False
+                        v = r_[0]
                     else:
                         return False
                 else:
@@ -4894,6 +5014,19 @@ class Interp:
             except Exception as e:
                 self._pending_exc = type(e).__name__
                 return TOP
+        if isinstance(recv, str) and any(isinstance(a, M._StringLetters) for a in list(args) + list(kwargs.values())):
+            # the set of all letters (encoding.stringletters()) handed to a string method: only stripping is modelled, by the predicate
+            if meth in ('strip', 'rstrip', 'lstrip') and len(args) == 1 and not kwargs and not isinstance(recv, M._StringLetters):
+                t = str(recv)
+                if meth in ('strip', 'lstrip'):
+                    while t and t[0].isalpha():
+                        t = t[1:]
+                if meth in ('strip', 'rstrip'):
+                    while t and t[-1].isalpha():
+                        t = t[:-1]
+                return t
+            self.imprecise.append('str.%s with the set of all letters as an argument is not modelled' % meth)
+            return TOP
         if isinstance(recv, str):
             if any(isinstance(a, Iter) for a in args):
                 conv = []
